@@ -1007,6 +1007,7 @@ pub fn main(opts: &Opts) -> ! {
     extra.insert("runs_per_hour".into(), json!((counters.get("histories") as f64 / t0.elapsed().as_secs_f64() * 3600.0) as u64));
     extra.insert("components".into(), json!({
         "real": ["all nine exported ldpc_toolbox_* symbols, called through extern \"C\" declarations", "std::fs (real files in a scratch directory)"],
+        "stub_file_layer": ["simfs decides the outcome of individual read calls (EIO, EINTR, short) while a constructor reads its file; the bytes come from the real file"],
         "stub": ["none (the reference model is the Rust API with fresh objects per call)"],
     }));
     let sample_ops = gen_history(opts.seed, 0);
